@@ -187,3 +187,42 @@ def cells_unchanged(a, snap):
     ids, cp = snap
     flat = np.asarray(a, dtype=object).ravel()
     return len(flat) == len(ids) and all(x is y for x, y in zip(flat, cp.ravel()))
+
+
+def per_series_filter(G, N, name="filter"):
+    """Uninterpreted coordinate filter. The documented calling contract is one simulated SERIES (1-d, length N) per call
+    ('filters/transformations to be applied to each simulated series'): a call with anything else is recorded as a failed
+    obligation of the calling code (and answered row by row so that the path can go on)."""
+    import numpy as _np
+
+    from symx.core import cur as _cur
+
+    def one(series):
+        out = G(list(series))
+        a = _np.empty(N, dtype=object)
+        for i in range(N):
+            a[i] = out[i]
+        return a
+
+    def flt(series):
+        s = _np.asarray(series, dtype=object)
+        if s.ndim != 1:
+            import z3 as _z3
+
+            _cur().prove(_z3.BoolVal(False), "filter_called_per_series", f"{name} was called with an array of shape {s.shape} instead of one series of length {N}")
+            return _np.array([one(r) for r in s.reshape(-1, s.shape[-1])], dtype=object).reshape(s.shape)
+        return one(s)
+
+    return flt
+
+
+def reducing_filter(k):
+    """Concrete filter for replays that is NOT element-wise (de-means and rescales the series it is given), so that filtering
+    pooled members differs from filtering each series; insists on the documented 1-d argument."""
+    import numpy as _np
+
+    def flt(s):
+        s = _np.asarray(s, dtype=float)
+        return (s - s.mean()) * (k + 2.0) + (k + 1.0) + 0.25 * s
+
+    return flt
